@@ -61,8 +61,8 @@ fn run_forms(cont: &str, form: &str, op: &str, l: &[f64], r: &[f64], s: f64, sha
             }
         }
     } else {
-        let a = Matrix { data: Vector::new(l.to_vec()), nrows: shape.0, ncols: shape.1 };
-        let b = Matrix { data: Vector::new(r.to_vec()), nrows: rshape.0, ncols: rshape.1 };
+        let a = mk(Vector::new(l.to_vec()), shape.0, shape.1);
+        let b = mk(Vector::new(r.to_vec()), rshape.0, rshape.1);
         let keep = |a2: &Matrix, b2: &Matrix| same_bits(&a2.data, l) && same_bits(&b2.data, r) && a2.nrows == shape.0 && b2.ncols == rshape.1;
         let pack = |v: Option<Matrix>| v.map(|m| (m.data.to_vec(), (m.nrows, m.ncols)));
         match form {
@@ -187,7 +187,7 @@ pub fn replay(cases: &str, verdicts: &str) {
                     let ok = g.as_ref().map(|d| d.len() == exp.len() && d.iter().zip(&exp).all(|(a, b)| a == b)).unwrap_or(false);
                     v.check(ok, &format!("Vector.{} on quarters (exact meaning)", name), lc, &c, json!(g.as_ref().map(|d| fjs(d))));
                     if let Some(sh) = shapes.last() {
-                        let m = Matrix { data: vx.clone(), nrows: sh.0, ncols: sh.1 };
+                        let m = mk(vx.clone(), sh.0, sh.1);
                         let g = guard(|| un!(name, m));
                         let ok = g.as_ref().map(|r| r.data.len() == exp.len() && r.data.iter().zip(&exp).all(|(a, b)| a == b) && r.nrows == sh.0 && r.ncols == sh.1).unwrap_or(false);
                         v.check(ok, &format!("Matrix.{} on quarters (exact meaning)", name), lc, &c, json!(g.as_ref().map(|d| fjs(&d.data))));
@@ -198,7 +198,7 @@ pub fn replay(cases: &str, verdicts: &str) {
                     let g = guard(|| un!(name, vx).to_vec());
                     v.check(g.as_ref().map(|d| same_bits(d, &exp)).unwrap_or(false) && same_bits(&vx, &x), &format!("Vector.{} on quarters", name), lc, &c, json!(g.as_ref().map(|d| fjs(d))));
                     if let Some(sh) = shapes.first() {
-                        let m = Matrix { data: vx.clone(), nrows: sh.0, ncols: sh.1 };
+                        let m = mk(vx.clone(), sh.0, sh.1);
                         let g = guard(|| un!(name, m));
                         let ok = g.as_ref().map(|r| same_bits(&r.data, &exp) && r.nrows == sh.0 && r.ncols == sh.1).unwrap_or(false);
                         v.check(ok, &format!("Matrix.{} on quarters", name), lc, &c, json!(g.as_ref().map(|d| fjs(&d.data))));
@@ -215,10 +215,25 @@ pub fn replay(cases: &str, verdicts: &str) {
                     let g = guard(|| un!(name, vx).to_vec());
                     v.check(g.as_ref().map(|d| same_bits(d, &exp)).unwrap_or(false) && same_bits(&vx, &x), &format!("Vector.{}", name), lc, &c, json!(g.as_ref().map(|d| fjs(d))));
                     for sh in shapes.iter() {
-                        let m = Matrix { data: vx.clone(), nrows: sh.0, ncols: sh.1 };
+                        let m = mk(vx.clone(), sh.0, sh.1);
                         let g = guard(|| un!(name, m));
                         let ok = g.as_ref().map(|r| same_bits(&r.data, &exp) && r.nrows == sh.0 && r.ncols == sh.1).unwrap_or(false);
                         v.check(ok, &format!("Matrix.{}", name), lc, &c, json!(g.as_ref().map(|d| fjs(&d.data))));
+                    }
+                }
+                // "every length": once per run the 29 maps on a vector of 70001 elements (beyond any block / thread threshold), bit for bit
+                if n == 16 {
+                    let big: Vec<f64> = (0..70001).map(|i| ((i * 37 % 1001) as f64 - 500.0) / 64.0 + 0.013).collect();
+                    let vb = Vector::new(big.clone());
+                    for name in unary_names() {
+                        let exp: Vec<f64> = big.iter().map(|t| { let t: f64 = *t; un!(name, t) }).collect();
+                        let g = guard(|| un!(name, vb).to_vec());
+                        let bad = g.as_ref().map(|d| if d.len() != exp.len() { 0 } else { d.iter().zip(&exp).position(|(a, b)| a.to_bits() != b.to_bits() && !(a.is_nan() && b.is_nan())).map(|p| p as i64).unwrap_or(-1) }).unwrap_or(0);
+                        v.check(bad == -1, &format!("Vector.{} length 70001", name), "long", &json!({"n": 70001}), json!({"first_bad_position": bad}));
+                        let m = mk(vb.clone(), 70001, 1);
+                        let gm = guard(|| un!(name, m).data.to_vec());
+                        let badm = gm.as_ref().map(|d| if d.len() != exp.len() { 0 } else { d.iter().zip(&exp).position(|(a, b)| a.to_bits() != b.to_bits() && !(a.is_nan() && b.is_nan())).map(|p| p as i64).unwrap_or(-1) }).unwrap_or(0);
+                        v.check(badm == -1, &format!("Matrix.{} length 70001", name), "long", &json!({"n": 70001}), json!({"first_bad_position": badm}));
                     }
                 }
                 for k in [-1i32, 0, 1, 2, 3, 4] {
@@ -226,7 +241,7 @@ pub fn replay(cases: &str, verdicts: &str) {
                     let g = guard(|| vx.powi(k).to_vec());
                     v.check(g.as_ref().map(|d| same_bits(d, &exp)).unwrap_or(false), &format!("Vector.powi({})", k), lc, &c, json!(g.as_ref().map(|d| fjs(d))));
                     if let Some(sh) = shapes.last() {
-                        let m = Matrix { data: vx.clone(), nrows: sh.0, ncols: sh.1 };
+                        let m = mk(vx.clone(), sh.0, sh.1);
                         let g = guard(|| m.powi(k));
                         let ok = g.as_ref().map(|r| same_bits(&r.data, &exp) && r.nrows == sh.0 && r.ncols == sh.1).unwrap_or(false);
                         v.check(ok, &format!("Matrix.powi({})", k), lc, &c, json!(g.as_ref().map(|d| fjs(&d.data))));
@@ -242,7 +257,7 @@ pub fn replay(cases: &str, verdicts: &str) {
                         let g = guard(|| vy.powf(e).to_vec());
                         v.check(g.as_ref().map(|d| same_bits(d, &exp)).unwrap_or(false), &format!("Vector.powf({}) non-integer operands", e), lc, &c, json!(g.as_ref().map(|d| fjs(d))));
                         if let Some(sh) = shapes.last() {
-                            let m = Matrix { data: vy.clone(), nrows: sh.0, ncols: sh.1 };
+                            let m = mk(vy.clone(), sh.0, sh.1);
                             let g = guard(|| m.powf(e));
                             let ok = g.as_ref().map(|r| same_bits(&r.data, &exp) && r.nrows == sh.0 && r.ncols == sh.1).unwrap_or(false);
                             v.check(ok, &format!("Matrix.powf({}) non-integer operands", e), lc, &c, json!(g.as_ref().map(|d| fjs(&d.data))));
@@ -260,7 +275,7 @@ pub fn replay(cases: &str, verdicts: &str) {
                     let g = guard(|| vx.powf(e).to_vec());
                     v.check(g.as_ref().map(|d| same_bits(d, &exp)).unwrap_or(false), &format!("Vector.powf({})", e), lc, &c, json!(g.as_ref().map(|d| fjs(d))));
                     if let Some(sh) = shapes.last() {
-                        let m = Matrix { data: vx.clone(), nrows: sh.0, ncols: sh.1 };
+                        let m = mk(vx.clone(), sh.0, sh.1);
                         let g = guard(|| m.powf(e));
                         let ok = g.as_ref().map(|r| same_bits(&r.data, &exp) && r.nrows == sh.0 && r.ncols == sh.1).unwrap_or(false);
                         v.check(ok, &format!("Matrix.powf({})", e), lc, &c, json!(g.as_ref().map(|d| fjs(&d.data))));
@@ -271,7 +286,7 @@ pub fn replay(cases: &str, verdicts: &str) {
                 let g = guard(|| (-vx.clone()).to_vec());
                 v.check(g.as_ref().map(|d| same_bits(d, &exp)).unwrap_or(false), "Vector.neg", lc, &c, json!(g.as_ref().map(|d| fjs(d))));
                 if let Some(sh) = shapes.last() {
-                    let m = Matrix { data: vx.clone(), nrows: sh.0, ncols: sh.1 };
+                    let m = mk(vx.clone(), sh.0, sh.1);
                     let g = guard(|| -m);
                     let ok = g.as_ref().map(|r| same_bits(&r.data, &exp) && r.nrows == sh.0 && r.ncols == sh.1).unwrap_or(false);
                     v.check(ok, "Matrix.neg", lc, &c, json!(g.as_ref().map(|d| fjs(&d.data))));
@@ -297,7 +312,7 @@ pub fn replay(cases: &str, verdicts: &str) {
                 let shapes: Vec<Vec<i64>> = c["shapes"].as_array().unwrap().iter().map(ints).collect();
                 let infn = f64s(&c["infnorms"]);
                 for (k, sh) in shapes.iter().enumerate() {
-                    let m = Matrix { data: vx.clone(), nrows: sh[0] as usize, ncols: sh[1] as usize };
+                    let m = mk(vx.clone(), sh[0] as usize, sh[1] as usize);
                     chk(&mut v, "inf_norm", guard(|| inf_norm(&x, sh[0] as usize)), infn[k]);
                     chk(&mut v, "Matrix.inf_norm", guard(|| m.inf_norm()), infn[k]);
                     chk(&mut v, "Matrix.sum", guard(|| m.sum()), es);
